@@ -174,13 +174,21 @@ def gen_tk_spec(rng, max_q=5, max_b=2, max_gates=7, kinds=None):
         if k in ("H", "S", "T", "X", "Y", "Z"):
             gates.append([k, rng.randrange(nq)])
         elif k in ("Rx", "Rz"):
-            gates.append([k, rng.choice([0.25, 0.5, 0.3, -0.7, 1.1, 2.0, -1.25]), rng.randrange(nq)])
+            q, phase = rng.randrange(nq), rng.choice([0.25, 0.5, 0.3, -0.7, 1.1, 2.0, -1.25])
+            if k == "Rz" and rng.random() < 0.6:      # a phase only shows between basis changes
+                gates += [["H", q], [k, phase, q], ["H", q]]
+            else:
+                gates.append([k, phase, q])
         elif k in ("CX", "CZ", "SWAP") and nq >= 2:
             a, b = _pair(rng, nq)
             gates.append([k, a, b])
         elif k == "CRz" and nq >= 2:
             a, b = _pair(rng, nq)
-            gates.append([k, rng.choice([0.25, 0.5, 0.3, -0.7, 1.5]), a, b])
+            phase = rng.choice([0.25, 0.5, 0.3, -0.7, 1.5])
+            if rng.random() < 0.6:
+                gates += [["H", a], ["H", b], [k, phase, a, b], ["H", a], ["H", b]]
+            else:
+                gates.append([k, phase, a, b])
         elif k == "Measure" and nb:
             gates.append([k, rng.randrange(nq), rng.randrange(nb)])
     return {"nq": nq, "nb": nb, "gates": gates}
